@@ -83,7 +83,14 @@ class Files:
     def write(self, text, gz):
         self.n += 1
         p = os.path.join(self.dir, 'Contents-%d%s' % (self.n, '.gz' if gz else ''))
-        if gz:
+        if gz == 'members':
+            # a gzip file of several members (written by appending, by concatenating files, or by a block compressor)
+            data = text.encode('utf-8')
+            cuts = sorted(set([0, len(data) // 3, len(data) // 2 + 1, len(data)]))
+            with open(p, 'wb') as f:
+                for a, b in zip(cuts, cuts[1:]):
+                    f.write(gzip.compress(data[a:b]))
+        elif gz:
             with gzip.open(p, 'wb') as f:
                 f.write(text.encode('utf-8'))
         else:
@@ -111,15 +118,46 @@ def run(ctx):
             rows = table(rng, maxrows=6000)     # a table beyond every usual buffer size
         text = render(rng, rows, header, narrative, crlf, long_narrative)
         hist[min(len(rows), 13)] = hist.get(min(len(rows), 13), 0) + 1
-        pp, pg = files.write(text, False), files.write(text, True)
+        pp, pg, pm = files.write(text, False), files.write(text, True), files.write(text, 'members')
         try:
             rp = call(lambda: to_lists(contents.parse_contents(pp, has_header=header)))
             rg = call(lambda: to_lists(contents.parse_contents(pg, has_header=header)))
+            rm = call(lambda: to_lists(contents.parse_contents(pm, has_header=header)))
+            if rm != rp and rg == rp:
+                rg = rm
+            os.unlink(pm)
+            # the same path again: what a caller did to the first result (looked up a missing key, added, cleared) is not
+            # in the second; then the file rewritten with other rows of the same size within the same second
+            again = None
+            if i % 3 == 0 and not isinstance(rp, Exn):
+                r1 = contents.parse_contents(pp, has_header=header)
+                r1[0]['no/such/path'], r1[1]['no-such-package']
+                r1[0]['usr/added'] = ['x']
+                for k in list(r1[1])[:1]:
+                    r1[1][k].append('appended')
+                r2 = to_lists(contents.parse_contents(pp, has_header=header))
+                if r2 != rp:
+                    again = 'a second parse of the same file, after the caller changed the first result, gives %s; the first gave %s' % (repr(r2)[:1500], repr(rp)[:1500])
+                mt = os.stat(pp).st_mtime_ns
+                swapped = text.replace('usr', '\0').replace('bin', 'usr').replace('\0', 'bin').replace('bash', '\0').replace('zsh', 'ksh').replace('\0', 'dash')
+                if swapped != text and len(swapped) == len(text) and again is None:
+                    with open(pp, 'w', encoding='utf-8', newline='') as f:
+                        f.write(swapped)
+                    os.utime(pp, ns=(mt, mt))
+                    r3 = call(lambda: to_lists(contents.parse_contents(pp, has_header=header)))
+                    pq = files.write(swapped, False)
+                    r4 = call(lambda: to_lists(contents.parse_contents(pq, has_header=header)))
+                    os.unlink(pq)
+                    if r3 != r4:
+                        again = 'the file rewritten with other rows of the same size parses to %s; the same rows in a new file to %s' % (repr(r3)[:1500], repr(r4)[:1500])
+                    with open(pp, 'w', encoding='utf-8', newline='') as f:
+                        f.write(text)
             # the declared/undeclared header cases
             wrong = call(lambda: to_lists(contents.parse_contents(pp, has_header=not header)))
         finally:
-            os.unlink(pp)
-            os.unlink(pg)
+            for q in (pp, pg, pm):
+                if os.path.exists(q):
+                    os.unlink(q)
         st['cases'] += 1
         ctx.evaluations += 1
         ctx.distinct.add(hash(text))
@@ -130,6 +168,8 @@ def run(ctx):
             why = 'parse_contents gives %s, the table is %s' % (repr(rp)[:2000], repr(want)[:2000])
         elif rg != rp:
             why = 'gzip and plain differ: %s vs %s' % (repr(rg)[:2000], repr(rp)[:2000])
+        elif again:
+            why = again
         elif not isinstance(wrong, Exn) and (header or any(p == 'FILE' for p, _ in rows) is False) and header:
             why = 'a header that is present but not declared is accepted'
         elif not header and not isinstance(wrong, Exn):
